@@ -24,11 +24,11 @@ theorem any_name_false (fields : List Hpack.Field) (n : Bytes)
   have := List.any_eq_false.mp h f hf
   simp [e] at this
 
-/-- **what `check_headers` guarantees**: no connection-specific field at all, and the FIRST `te`
-    field (the one `HeaderMap::get` returns) is `trailers` -/
+/-- **what `check_headers` guarantees**: no connection-specific field at all, and EVERY `te` field is
+    `trailers` (since the repair of finding N5) -/
 theorem checkHeaders_ok (fields : List Hpack.Field) (h : Streams.checkHeaders fields = .ok ()) :
     (∀ f ∈ fields, Spec.Http.connectionSpecific.contains f.h.1 = false) ∧
-    (∀ f, fields.find? (fun f => f.h.1 == Spec.Http.ascii "te") = some f → f.h.2 = Spec.Http.ascii "trailers") := by
+    (∀ f ∈ fields, f.h.1 = Spec.Http.ascii "te" → f.h.2 = Spec.Http.ascii "trailers") := by
   unfold Streams.checkHeaders at h
   simp only at h
   split at h
@@ -50,30 +50,41 @@ theorem checkHeaders_ok (fields : List Hpack.Field) (h : Streams.checkHeaders fi
       rw [str_keep_alive] at a4
       rw [str_proxy_connection] at a5
       simp [a1, a2, a3, a4, a5]
-    · intro f hf
-      rw [ascii_te, ← str_te] at hf
-      rw [hf] at h
-      simp only at h
+    · intro f hf hte
       split at h
       · cases h
       · rename_i hv
+        have hv' : ∀ x ∈ fields, x.h.1 = Http.str "te" → x.h.2 = Http.str "trailers" := by simpa using hv
+        rw [ascii_te, ← str_te] at hte
         rw [ascii_trailers, ← str_trailers]
-        simpa using hv
+        exact hv' f hf hte
 
-/-- in the reference's terms: an accepted field list never violates `connection-specific-field` -/
+/-- in the reference's terms: an accepted field list violates neither `connection-specific-field` nor
+    `te-not-trailers` -/
 theorem checkHeaders_ok_spec (fields : List Hpack.Field) (h : Streams.checkHeaders fields = .ok ()) :
-    "connection-specific-field" ∉ Spec.Http.common (wireFields fields) := by
-  have h1 := (checkHeaders_ok fields h).1
+    "connection-specific-field" ∉ Spec.Http.common (wireFields fields) ∧
+    "te-not-trailers" ∉ Spec.Http.common (wireFields fields) := by
+  obtain ⟨h1, h2⟩ := checkHeaders_ok fields h
   unfold Spec.Http.common
-  have : (wireFields fields).any (fun f => Spec.Http.connectionSpecific.contains f.1) = false := by
+  have e1 : (wireFields fields).any (fun f => Spec.Http.connectionSpecific.contains f.1) = false := by
     rw [List.any_eq_false]
     intro x hx
     obtain ⟨f, hf, rfl⟩ := List.mem_map.mp hx
     rw [h1 f hf]; simp
-  rw [this]
+  have e2 : (Spec.Http.get (wireFields fields) "te").any (· != Spec.Http.ascii "trailers") = false := by
+    rw [List.any_eq_false]
+    intro v hv
+    unfold Spec.Http.get at hv
+    obtain ⟨x, hx, rfl⟩ := List.mem_map.mp hv
+    obtain ⟨hx1, hx2⟩ := List.mem_filter.mp hx
+    obtain ⟨f, hf, rfl⟩ := List.mem_map.mp hx1
+    have := h2 f hf (by simpa using hx2)
+    simp [this]
+  rw [e1, e2]
   simp only [Bool.false_eq_true, if_false, List.append_nil, List.mem_append, not_or]
-  refine ⟨⟨⟨⟨?_, ?_⟩, ?_⟩, ?_⟩, ?_⟩ <;> (split <;> simp)
-
+  constructor
+  · refine ⟨⟨⟨?_, ?_⟩, ?_⟩, ?_⟩ <;> (split <;> simp)
+  · refine ⟨⟨⟨?_, ?_⟩, ?_⟩, ?_⟩ <;> (split <;> simp)
 
 /-! ### the four callers refuse before touching anything -/
 
